@@ -58,6 +58,7 @@ pub const REACH: &[&str] = &[
     "rebuilt_queries_equal",  // 12
     "zero_copy_rebuild",      // 13 borrowed &[u64] from the placed buffer fed to from_parts/from_words
     "known_failure_seen",     // 14
+    "semi_index_from_bytes",  // 15 standard/simple SemiIndex::from_bytes on placed buffers
 ];
 const R_WORDS: usize = 0;
 const R_BITS: usize = 1;
@@ -74,6 +75,7 @@ const R_BORROW: usize = 11;
 const R_REBUILT: usize = 12;
 const R_ZC: usize = 13;
 const R_KNOWN: usize = 14;
+const R_SEMI: usize = 15;
 
 pub const FAULTS: &[&str] = &[
     "placement_1", "placement_2", "placement_3", "placement_4", "placement_5", "placement_6", "placement_7",
@@ -515,6 +517,38 @@ impl C31 {
             }
         }
 
+        // ---- the semi-index serialisation helpers (standard / simple) on placed buffers ----
+        if let Data::Json { text } = &case.data {
+            use succinctly::json::{simple, standard};
+            let st = standard::build_semi_index(text);
+            let si = simple::build_semi_index(text);
+            let files: [(&[u8], &[u8]); 2] = [(st.ib_as_bytes(), st.bp_as_bytes()), (si.ib_as_bytes(), si.bp_as_bytes())];
+            for k in 0u8..8 {
+                for (which, (ibb, bpb)) in files.iter().enumerate() {
+                    alloc::set_placement(k);
+                    let ib_buf: Vec<u8> = ibb.to_vec();
+                    let bp_buf: Vec<u8> = bpb.to_vec();
+                    alloc::set_placement(0);
+                    let al = ib_buf.as_ptr() as usize % 8;
+                    let res = caught(|| {
+                        if which == 0 {
+                            let re = standard::SemiIndex::from_bytes(&ib_buf, &bp_buf);
+                            re.ib == st.ib && re.bp == st.bp
+                        } else {
+                            let re = simple::SemiIndex::from_bytes(&ib_buf, &bp_buf);
+                            re.ib == si.ib && re.bp == si.bp
+                        }
+                    });
+                    let f = if which == 0 { "standard::SemiIndex::from_bytes" } else { "simple::SemiIndex::from_bytes" };
+                    match res {
+                        Ok(true) => obs.reach.hit(R_SEMI),
+                        Ok(false) => fails.push(f, al, "read_back_buffer", "mismatch:semi_index_from_bytes".into(), json!({})),
+                        Err(class) => fails.push(f, al, "read_back_buffer", class, json!({})),
+                    }
+                }
+            }
+        }
+
         // ---- mmap-with-header: sub-slices at every offset of an aligned buffer ----
         alloc::set_placement(0);
         let payload = &disk["main"];
@@ -562,6 +596,7 @@ impl Scenario for C31 {
             "borrow_ok",
             "rebuilt_queries_equal",
             "zero_copy_rebuild",
+            "semi_index_from_bytes",
         ]
     }
 
